@@ -4,10 +4,13 @@ import (
 	"encoding/json"
 	"errors"
 	"fmt"
+	"io"
 	"math/rand/v2"
 	"net"
 	"net/http"
-	"runtime"
+	"os"
+	"os/exec"
+	"path/filepath"
 	"strings"
 	"sync"
 	"sync/atomic"
@@ -52,6 +55,7 @@ type cycleRec struct {
 	End            int64
 	Snapshot       table
 	StreamRefused  bool
+	NoFullSync     bool
 	HeldInApply    bool
 	Stalled        bool
 
@@ -86,15 +90,21 @@ type scenario struct {
 	lastOn map[string]*pushRec
 	phase  atomic.Value // string
 	cycle  atomic.Int64
+	nPush  atomic.Int64
 
 	cycles   []*cycleRec
 	putBack  []*pxEvent
+	obsStop  chan struct{}
+	obsDone  chan struct{}
 	sentTry  int
 	queueFul int64
 	counts   map[string]int
 	sig      []string
 	nObl     int
 }
+
+// size orders witnesses of one finding: the smallest is the one written out (layer A histories first).
+func (sc *scenario) size() int { return 1000 + int(sc.nPush.Load()) }
 
 func (sc *scenario) stamp() int64 { return atomic.AddInt64(&sc.clock, 1) }
 func (sc *scenario) cnt(k string, n int) {
@@ -107,7 +117,7 @@ func (sc *scenario) describe() map[string]any {
 	var cs []map[string]any
 	for _, c := range sc.cycles {
 		cs = append(cs, map[string]any{"cycle": c.N, "failed_gets": c.FailedGets, "changes_before_snapshot": c.nPre, "changes_between_snapshot_and_attach": c.nGap,
-			"pushes_while_connected": c.nConn, "cut": c.CutMode, "cut_mid_burst": c.MidBurst, "stream_attach_refused": c.StreamRefused, "held_in_full_sync_apply": c.HeldInApply,
+			"pushes_while_connected": c.nConn, "cut": c.CutMode, "cut_mid_burst": c.MidBurst, "stream_attach_refused": c.StreamRefused, "reattached_without_full_sync": c.NoFullSync, "held_in_full_sync_apply": c.HeldInApply,
 			"link_stalled": c.Stalled, "snapshot": c.Snapshot.String(), "drop_warnings_logged_by_active": c.drops,
 			"stamps": map[string]int64{"get": c.GetArrived, "snapshot": c.SnapTaken, "stream_request": c.StreamArrived, "connected_observed": c.ConnObserved, "cut_issued": c.CutIssued, "end": c.End}})
 	}
@@ -131,7 +141,7 @@ func (sc *scenario) fail(reason string) error {
 }
 
 // expect waits for the next proxy event of the given kind (wall clock = watchdog only).
-func (sc *scenario) expect(kind string) (*pxEvent, error) {
+func (sc *scenario) expect(kind string, alt ...string) (*pxEvent, error) {
 	t := time.NewTimer(60 * time.Second)
 	defer t.Stop()
 	for {
@@ -146,7 +156,7 @@ func (sc *scenario) expect(kind string) (*pxEvent, error) {
 			}
 		}
 		{
-			if e.Kind == kind {
+			if e.Kind == kind || len(alt) > 0 && e.Kind == alt[0] {
 				return e, nil
 			}
 			if e.release == nil { // async note (attached / ended / upstream-error) not waited for here
@@ -235,6 +245,7 @@ func (sc *scenario) start() error {
 	if err := sc.sb.Start(); err != nil {
 		return sc.fail(err.Error())
 	}
+	sc.observe(addr)
 	return nil
 }
 
@@ -253,7 +264,44 @@ func waitHealthy(addr, node string) bool {
 	return false
 }
 
+// observe plays the readers a running node has next to the syncer: statistics, health endpoint,
+// lookups in the received-session table and in the store (interleavings for the race detector;
+// nothing is judged here).
+func (sc *scenario) observe(addr string) {
+	sc.obsStop = make(chan struct{})
+	sc.obsDone = make(chan struct{})
+	go func() {
+		defer close(sc.obsDone)
+		cl := &http.Client{Timeout: 2 * time.Second, Transport: &http.Transport{DisableKeepAlives: true}}
+		for i := 0; ; i++ {
+			select {
+			case <-sc.obsStop:
+				return
+			default:
+			}
+			sc.act.Stats()
+			sc.sb.Stats()
+			sc.sb.IsConnected()
+			sc.sb.GetReceivedSession("s0")
+			sc.sbStore.GetSession("s1")
+			sc.actStore.GetSession("s0")
+			sc.actStore.GetSessionCount()
+			if i%20 == 0 {
+				if resp, err := cl.Get("http://" + addr + "/ha/health"); err == nil {
+					io.Copy(io.Discard, resp.Body)
+					resp.Body.Close()
+				}
+			}
+			time.Sleep(500 * time.Microsecond)
+		}
+	}()
+}
+
 func (sc *scenario) stop() {
+	if sc.obsStop != nil {
+		close(sc.obsStop)
+		<-sc.obsDone
+	}
 	if sc.sb != nil {
 		sc.sb.Stop()
 	}
@@ -280,23 +328,28 @@ func (sc *scenario) doOp(pusher int, rng *rand.Rand, delBias int) *pushRec {
 	switch {
 	case !present:
 		typ, s = ha.SyncTypeAdd, newSession(sid, op, rng)
-		sc.actStore.inner.PutSession(&s)
 		sc.model[sid] = s
 	case rng.IntN(100) < delBias:
 		typ, s = ha.SyncTypeDelete, cur
 		s.BytesIn = op
-		sc.actStore.inner.DeleteSession(sid)
 		delete(sc.model, sid)
 	default:
 		typ, s = ha.SyncTypeUpdate, updateSession(cur, op, rng)
-		sc.actStore.inner.PutSession(&s)
 		sc.model[sid] = s
 	}
 	rec := &pushRec{Idx: len(sc.pushes), Pusher: pusher, Type: string(typ), SID: sid, Op: op, Phase: sc.phase.Load().(string), Cycle: int(sc.cycle.Load())}
 	sc.pushes = append(sc.pushes, rec)
+	sc.nPush.Add(1)
 	sc.byOp[op] = rec
 	sc.lastOn[sid] = rec
 	sc.mu.Unlock()
+	// the session manager's order: its own table first, then the notification (session ids are
+	// partitioned between pushers, so per-session order is the pusher's program order)
+	if typ == ha.SyncTypeDelete {
+		sc.actStore.DeleteSession(sid)
+	} else {
+		sc.actStore.PutSession(&s)
+	}
 	sc.push(rec, typ, &s)
 	return rec
 }
@@ -342,6 +395,7 @@ func (sc *scenario) sentinel() *pushRec {
 	sc.model[sid] = s
 	rec := &pushRec{Idx: len(sc.pushes), Pusher: -1, Type: string(typ), SID: sid, Op: op, Phase: sc.phase.Load().(string), Cycle: int(sc.cycle.Load()), Sentinel: true}
 	sc.pushes = append(sc.pushes, rec)
+	sc.nPush.Add(1)
 	sc.byOp[op] = rec
 	sc.lastOn[sid] = rec
 	sc.mu.Unlock()
@@ -385,7 +439,7 @@ func (sc *scenario) settle(c *cycleRec) (bool, error) {
 		}
 	}
 	if firstSent != 0 && later >= 3 && sc.sb.IsConnected() {
-		run.Violation(compStream, ruleOrder, "received-not-applied:sentinel",
+		violation(sc.size(), compStream, ruleOrder, "received-not-applied:sentinel",
 			fmt.Sprintf("layer B scenario %d: 20 consecutive changes pushed while the stream was connected were relayed to the standby (followed by %d further events on the same stream) and none was applied to its store", sc.idx, later),
 			sc.describe())
 		return false, nil
@@ -445,7 +499,7 @@ func (sc *scenario) run() error {
 		// ---- GET /ha/sessions (possibly failing a few times)
 		var snapEv *pxEvent
 		for {
-			ev, err := sc.expect("get")
+			ev, err := sc.expect("get", "stream")
 			if err != nil {
 				return err
 			}
@@ -455,6 +509,15 @@ func (sc *scenario) run() error {
 				prev.End = ev.Stamp
 				sc.judgeInterval(prev, true)
 				sc.sig = append(sc.sig, sc.cycleSig(prev))
+			}
+			if ev.Kind == "stream" {
+				// the standby re-attaches without asking for a snapshot: no full sync to judge in this
+				// cycle; what it missed while away shows up in clause (iii)
+				c.NoFullSync = true
+				sc.cnt("B_reattach_without_full_sync", 1)
+				c.GetReleased, c.SnapTaken = ev.Stamp, ev.Stamp
+				sc.putBack = append([]*pxEvent{ev}, sc.putBack...)
+				break
 			}
 			sc.phase.Store("pre")
 			nPre := 0
@@ -489,7 +552,7 @@ func (sc *scenario) run() error {
 			want := sc.model.clone()
 			sc.mu.Unlock()
 			if ds := diffTables(c.Snapshot, want); len(ds) > 0 {
-				run.Violation(compGet, ruleSnap, strings.Join(diffKinds(ds), "+"), fmt.Sprintf("layer B scenario %d cycle %d: GET /ha/sessions served %s while the (quiesced) active's table is %s", sc.idx, cy, c.Snapshot, want),
+				violation(sc.size(), compGet, ruleSnap, strings.Join(diffKinds(ds), "+"), fmt.Sprintf("layer B scenario %d cycle %d: GET /ha/sessions served %s while the (quiesced) active's table is %s", sc.idx, cy, c.Snapshot, want),
 					map[string]any{"scenario": sc.describe(), "differences": ds})
 			}
 			sc.cnt("B_snapshots_compared_with_active_table", 1)
@@ -505,6 +568,9 @@ func (sc *scenario) run() error {
 		}
 
 		// ---- between snapshot and stream attach (the gap)
+		if c.NoFullSync {
+			snapEv = &pxEvent{release: make(chan pxAction, 1)}
+		}
 		sc.phase.Store("gap")
 		gap := func(max int) {
 			if rng.IntN(3) == 0 {
@@ -556,7 +622,9 @@ func (sc *scenario) run() error {
 		c.StreamArrived = ev3.Stamp
 		// clause (i): performFullSync has returned; the stream is not attached, so nothing else
 		// writes to the standby's table now.
-		sc.judgeFullSync(c)
+		if !c.NoFullSync {
+			sc.judgeFullSync(c)
+		}
 		gap(2)
 		if failures < 3 && rng.IntN(10) == 0 {
 			failures++
@@ -728,7 +796,7 @@ func (sc *scenario) judgeFullSync(c *cycleRec) {
 			}
 		}
 		for _, k := range diffKinds(ds) {
-			run.Violation(compFull, ruleFull, v+":"+k,
+			violation(sc.size(), compFull, ruleFull, v+":"+k,
 				fmt.Sprintf("layer B scenario %d cycle %d: right after the completed full sync the standby's %s is %s, the snapshot the active served is %s", sc.idx, c.N, v, views[v], c.Snapshot),
 				map[string]any{"scenario": sc.describe(), "view": v, "standby": views[v].String(), "snapshot_served": c.Snapshot.String(), "differences": ds, "changes_on_active": sc.pushTail(40)})
 		}
@@ -770,27 +838,36 @@ func (sc *scenario) judgeInterval(c *cycleRec, final bool) {
 	end := c.End
 	var wire []wireMsg
 	wireOps := map[uint64]bool{}
-	wireDel := map[string][]uint64{}
+	wireIdx := map[uint64]int{}
+	wireCount := map[uint64]int{}
 	for _, w := range sc.px.wireCopy() {
 		if w.Stamp <= c.StreamReleased || w.Stamp > end || w.Type == "heartbeat" {
 			continue
 		}
+		wireIdx[w.Op] = len(wire)
 		wire = append(wire, w)
 		wireOps[w.Op] = true
-		if w.Type == "delete" {
-			wireDel[w.SID] = append(wireDel[w.SID], w.Op)
-		}
+		wireCount[w.Op]++
 	}
 	var applied []appliedOp
+	wpos := 0
+	used := map[int]bool{}
 	for _, o := range sc.sbStore.logCopy() {
 		if o.Stamp <= c.StreamReleased || o.Stamp > end {
 			continue
 		}
 		a := appliedOp{Stamp: o.Stamp, Kind: o.Kind, SID: o.SID, Op: o.Op}
-		if o.Kind == "delete" { // the store sees only the session id: the j-th applied delete of a session is the j-th one relayed
-			if q := wireDel[o.SID]; len(q) > 0 {
-				a.Op, wireDel[o.SID] = q[0], q[1:]
+		if o.Kind == "delete" {
+			// the store sees only the session id: an applied delete is the next delete of that session
+			// relayed after the message applied before it
+			for i := wpos; i < len(wire); i++ {
+				if wire[i].Type == "delete" && wire[i].SID == o.SID && !used[i] {
+					a.Op, used[i], wpos = wire[i].Op, true, i+1
+					break
+				}
 			}
+		} else if i, ok := wireIdx[o.Op]; ok && i >= wpos {
+			wpos = i + 1
 		}
 		applied = append(applied, a)
 	}
@@ -809,14 +886,18 @@ func (sc *scenario) judgeInterval(c *cycleRec, final bool) {
 	for i, a := range applied {
 		p := sc.byOp[a.Op]
 		if p == nil || (p.Type == "delete") != (a.Kind == "delete") {
-			run.Violation(compStream, ruleOrder, "applied-change-never-pushed:"+a.Kind,
+			violation(sc.size(), compStream, ruleOrder, "applied-change-never-pushed:"+a.Kind,
 				fmt.Sprintf("layer B scenario %d cycle %d: while connected the standby applied %s of %s (version op %d) which no PushChange call of the active carried", sc.idx, c.N, a.Kind, a.SID, a.Op),
 				wit(map[string]any{"applied": a, "applied_around": appliedWindow(applied, i)}))
 			continue
 		}
 		if seen[a.Op] {
-			run.Violation(compStream, ruleOrder, "applied-twice",
-				fmt.Sprintf("layer B scenario %d cycle %d: push #%d (%s %s op %d) was applied twice within one connected interval", sc.idx, c.N, p.Idx, p.Type, p.SID, p.Op),
+			cmp, cls := compStream, "applied-twice"
+			if wireCount[a.Op] > 1 {
+				cmp, cls = compBroadcast, "sent-twice"
+			}
+			violation(sc.size(), cmp, ruleOrder, cls,
+				fmt.Sprintf("layer B scenario %d cycle %d: push #%d (%s %s op %d) was applied twice within one connected interval (relayed %d time(s) on the wire)", sc.idx, c.N, p.Idx, p.Type, p.SID, p.Op, wireCount[a.Op]),
 				wit(map[string]any{"push": p, "applied_around": appliedWindow(applied, i)}))
 		}
 		seen[a.Op] = true
@@ -825,7 +906,7 @@ func (sc *scenario) judgeInterval(c *cycleRec, final bool) {
 			if p.SID == maxCallPush.SID {
 				cls = "reordered-same-session"
 			}
-			run.Violation(compBroadcast, ruleOrder, cls,
+			violation(sc.size(), compBroadcast, ruleOrder, cls,
 				fmt.Sprintf("layer B scenario %d cycle %d: push #%d (%s %s op %d) returned before push #%d (%s %s op %d) was called, yet the standby applied it later", sc.idx, c.N, p.Idx, p.Type, p.SID, p.Op, maxCallPush.Idx, maxCallPush.Type, maxCallPush.SID, maxCallPush.Op),
 				wit(map[string]any{"earlier_push": p, "later_push": maxCallPush, "applied_around": appliedWindow(applied, i)}))
 		}
@@ -878,7 +959,7 @@ func (sc *scenario) judgeInterval(c *cycleRec, final bool) {
 		if final {
 			sc.counts["B_lost_"+cls] += len(ps)
 		}
-		run.Violation(comp[cls], ruleOrder, cls,
+		violation(sc.size(), comp[cls], ruleOrder, cls,
 			fmt.Sprintf("layer B scenario %d cycle %d: %d change(s) pushed while the stream was connected were never applied by the standby although changes pushed later were (first: push #%d %s %s op %d; the active logged %d 'client channel full' drops in this interval; relayed on the wire: %v)",
 				sc.idx, c.N, len(ps), ps[0].Idx, ps[0].Type, ps[0].SID, ps[0].Op, c.drops, wireOps[ps[0].Op]),
 			wit(map[string]any{"lost_pushes": len(ps), "first_lost": first, "obligated_pushes": obligated}))
@@ -940,7 +1021,7 @@ func (sc *scenario) judgeConvergence(c *cycleRec) {
 	}
 	if len(gapDiffs) > 0 {
 		sc.cnt("B_convergence_diffs_gap", len(gapDiffs))
-		run.Violation(compLoop, ruleConv, "change-lost-between-full-sync-and-stream-attach",
+		violation(sc.size(), compLoop, ruleConv, "change-lost-between-full-sync-and-stream-attach",
 			fmt.Sprintf("layer B scenario %d cycle %d: link up, active quiet, a later sentinel applied, yet standby %s != active %s: %d session(s) last changed on the active after it served the snapshot and before the stream was attached; those pushes reached no client and nothing re-synchronises them", sc.idx, c.N, got, want, len(gapDiffs)),
 			map[string]any{"scenario": sc.describe(), "standby": got.String(), "active": want.String(), "sessions": gapDiffs})
 	}
@@ -949,7 +1030,7 @@ func (sc *scenario) judgeConvergence(c *cycleRec) {
 		for _, u := range unexplained {
 			kinds = append(kinds, u["difference"].(tdiff))
 		}
-		run.Violation(compLoop, ruleConv, "unexplained:"+strings.Join(diffKinds(kinds), "+"),
+		violation(sc.size(), compLoop, ruleConv, "unexplained:"+strings.Join(diffKinds(kinds), "+"),
 			fmt.Sprintf("layer B scenario %d cycle %d: link up, active quiet, a later sentinel applied, yet standby %s != active %s, and no clause (i)/(ii) violation or gap change accounts for %d of the differing sessions", sc.idx, c.N, got, want, len(unexplained)),
 			map[string]any{"scenario": sc.describe(), "standby": got.String(), "active": want.String(), "sessions": unexplained})
 	}
@@ -985,24 +1066,80 @@ func (s *recStore) disarmGate() {
 // ---------------------------------------------------------------- test entry
 
 func TestLayerB(t *testing.T) {
-	if skipLayerB {
+	if child {
+		layerBChild(t)
 		return
 	}
-	if !child {
-		t.Parallel()
-	}
+	t.Parallel()
 	id := wdEnter("layer B")
 	defer wdLeave(id)
 	n := run.Pick(80, 1500)
-	if child {
-		n = 6
+	const nChildren = 4
+	tmp, err := os.MkdirTemp("", "c13b")
+	if err != nil {
+		t.Fatal(err)
 	}
-	workers := 12 // scenarios mostly wait for I/O
-	if runtime.NumCPU() < workers {
-		workers = runtime.NumCPU()
+	defer os.RemoveAll(tmp)
+	raceLog := filepath.Join(tmp, "race")
+	for _, f := range strings.Fields(os.Getenv("GORACE")) {
+		if strings.HasPrefix(f, "log_path=") {
+			raceLog = strings.TrimPrefix(f, "log_path=") // children log next to the parent: vk.JudgeRaces reads <log_path>.*
+		}
 	}
 	var wg sync.WaitGroup
-	next := int64(-1)
+	for k := 0; k < nChildren; k++ {
+		k := k
+		lo, hi := n*k/nChildren, n*(k+1)/nChildren
+		wg.Add(1)
+		go func() {
+			defer wg.Done()
+			out := filepath.Join(tmp, fmt.Sprintf("child%d.json", k))
+			cmd := exec.Command(os.Args[0], "-test.run", "^TestLayerB$", "-test.count=1", "-test.timeout=0")
+			cmd.Env = append(os.Environ(), "VERIF_C13_CHILD="+out, fmt.Sprintf("VERIF_C13_RANGE=%d:%d", lo, hi),
+				fmt.Sprintf("GORACE=halt_on_error=0 log_path=%s.child%d", raceLog, k))
+			txt, _ := cmd.CombinedOutput()
+			if err := mergeChild(out); err == nil {
+				run.Count("B_child_processes_completed", 1)
+				return
+			}
+			// the child died: attribute a process-fatal error to the workload
+			lines := strings.Split(string(txt), "\n")
+			for i, l := range lines {
+				if strings.HasPrefix(l, "fatal error: ") || strings.HasPrefix(l, "panic: ") {
+					cls := digits.ReplaceAllString(strings.TrimSpace(l), "N")
+					if len(cls) > 100 {
+						cls = cls[:100]
+					}
+					end := i + 80
+					if end > len(lines) {
+						end = len(lines)
+					}
+					violation(0, "ha.HASyncer (active+standby over loopback)", "no-process-fatal-error", cls,
+						fmt.Sprintf("the end-to-end push/reconnect workload (layer B scenarios %d..%d) killed the process: %s", lo, hi-1, strings.TrimSpace(l)), lines[i:end])
+					return
+				}
+			}
+			tail := lines
+			if len(tail) > 15 {
+				tail = tail[len(tail)-15:]
+			}
+			run.Inconclusive(fmt.Sprintf("layerB-child-%d", k), "child process ended without results and without a recognisable fatal error: "+strings.Join(tail, " | "))
+		}()
+	}
+	wg.Wait()
+}
+
+// layerBChild runs the scenarios of VERIF_C13_RANGE in this (child) process.
+func layerBChild(t *testing.T) {
+	id := wdEnter("layer B child")
+	defer wdLeave(id)
+	var lo, hi int
+	if _, err := fmt.Sscanf(os.Getenv("VERIF_C13_RANGE"), "%d:%d", &lo, &hi); err != nil {
+		t.Fatal("VERIF_C13_RANGE: ", err)
+	}
+	workers := 3 // scenarios mostly wait for I/O; four children run side by side
+	var wg sync.WaitGroup
+	next := int64(lo - 1)
 	var sampled atomic.Int64
 	for w := 0; w < workers; w++ {
 		wg.Add(1)
@@ -1010,37 +1147,37 @@ func TestLayerB(t *testing.T) {
 			defer wg.Done()
 			for {
 				i := int(atomic.AddInt64(&next, 1))
-				if i >= n {
+				if i >= hi {
 					return
 				}
 				sc := newScenario(i)
 				err := sc.run()
 				sc.stop()
 				if err != nil {
-					run.Inconclusive(fmt.Sprintf("layerB-%d", i), err.Error())
-					run.Count("B_scenarios_inconclusive", 1)
+					col.Inconclusive(fmt.Sprintf("layerB-%d", i), err.Error())
+					col.Count("B_scenarios_inconclusive", 1)
 					continue
 				}
-				run.Eval()
-				run.Count("B_scenarios", 1)
+				col.Eval()
+				col.Count("B_scenarios", 1)
 				for k, v := range sc.counts {
-					run.Count(k, v)
+					col.Count(k, v)
 				}
-				run.Count("B_push_queue_full_retries", int(atomic.LoadInt64(&sc.queueFul)))
+				col.Count("B_push_queue_full_retries", int(atomic.LoadInt64(&sc.queueFul)))
 				for _, p := range sc.pushes {
-					run.Count("B_push_"+p.Type+"_"+p.Phase, 1)
+					col.Count("B_push_"+p.Type+"_"+p.Phase, 1)
 				}
-				run.Count("B_heartbeats_relayed", countHeartbeats(sc.px.wireCopy()))
-				run.Count("B_drop_warnings_logged_by_active", sc.drops())
-				run.Count("B_connection_cycles", len(sc.cycles))
+				col.Count("B_heartbeats_relayed", countHeartbeats(sc.px.wireCopy()))
+				col.Count("B_drop_warnings_logged_by_active", sc.drops())
+				col.Count("B_connection_cycles", len(sc.cycles))
 				sig := strings.Join(sc.sig, "")
-				run.Distinct("B_scenario_signatures", sig)
-				run.Distinct("B_standby_end_tables", sc.sbStore.table().String())
+				col.Distinct("B_scenario_signatures", sig)
+				col.Distinct("B_standby_end_tables", sc.sbStore.table().String())
 				if sc.nObl > 0 {
-					run.Nontrivial(fmt.Sprintf("B|p%d|%s", sc.pushers, sig))
+					col.Nontrivial(fmt.Sprintf("B|p%d|%s", sc.pushers, sig))
 				}
-				if len(sc.cycles) >= 2 && sampled.Add(1) <= 2 {
-					run.Sample(sc.describe())
+				if len(sc.cycles) >= 2 && sampled.Add(1) <= 1 {
+					col.Sample(sc.describe())
 				}
 			}
 		}()
